@@ -84,6 +84,13 @@ def hist_astype(rng):
             sent = rng.choice(['default', '-9999', '1^1'])
         else:
             sent = rng.choice(['default', '0', '7'])
+            if rng.random() < 0.3:
+                # sentinels at the edge of the target type (not exactly representable in float64 for 64 bits)
+                bits = gen.BITS[dt]
+                if dt.startswith('u'):
+                    sent = str(rng.choice([2 ** bits - 1, 2 ** bits - 2]))
+                else:
+                    sent = str(rng.choice([2 ** (bits - 1) - 1, -(2 ** (bits - 1) - 1), 2 ** (bits - 1) - 2]))
         h += ['astype a r=t dtype=%s sentinel=%s' % (dt, sent), 'state a', 'state t', 'valid t', 'valid a']
     if c.spord - c.covord >= 2:
         h += ['pack a r=p', 'state p', 'valid p', 'valid a', 'state a']
